@@ -200,6 +200,12 @@ pub fn mutate_semantic(p: &mut Program, rng: &mut Rng) -> Option<String> {
                         _ => (format!("hash: {lit}, ref: {name},"), "ref"),
                     };
                     p.policies[k].form = PolicyForm::RawCtor(fields);
+                    if rng.bool() {
+                        // next to it, an unused policy whose hash is a property access: an analysed definition that
+                        // keeps a handle on the program scope
+                        p.policies.push(Policy { name: "AnchorPol77".into(), hash: vec![0x77; 28], form: PolicyForm::RawCtor(format!("hash: 0x{}#0.tx_hash,", "ab".repeat(32))) });
+                        return Some(format!("policy-{what}-is-{kind}+anchor-policy"));
+                    }
                     return Some(format!("policy-{what}-is-{kind}"));
                 }
             }
